@@ -4,8 +4,11 @@
 package main
 
 import (
+	"flag"
 	"fmt"
 	"os"
+	"testing"
+	"testing/synctest"
 
 	"verif/harness/internal/jobctl"
 	"verif/harness/internal/vh"
@@ -42,12 +45,29 @@ func run(sel int, in []int64) []int64 {
 	panic("unknown selector")
 }
 
+// The whole harness runs inside a testing/synctest bubble: time is a fake clock that
+// only moves when the harness sleeps, so the REAL timers of the controller's delayed
+// actions (policies with a timeout, AddDelayActionForJob) fire exactly where a history
+// says so.  testing.Main is only the way to obtain the *testing.T synctest asks for.
 func main() {
 	if os.Getenv("C05_PROBE") != "" {
 		probe()
 		return
 	}
-	vh.Harness{Run: run, Laws: laws, Gen: gen}.Main()
+	args := os.Args
+	testing.Init()
+	os.Args = args[:1]
+	flag.Parse() // the testing flags are now "parsed"; the harness flags are parsed by vh later
+	os.Args = args
+	testing.Main(func(pat, str string) (bool, error) { return true, nil },
+		[]testing.InternalTest{{Name: "harness", F: func(t *testing.T) {
+			synctest.Test(t, func(t *testing.T) {
+				jobctl.FakeClock = true
+				jobctl.WaitIdle = synctest.Wait
+				vh.Harness{Run: run, Laws: laws, Gen: gen}.Main()
+				os.Exit(0) // the controller's background goroutines never end
+			})
+		}}}, nil, nil)
 }
 
 func i64(v int64) *int64 { return &v }
